@@ -861,7 +861,8 @@ class Variable(CanBehaveLikeAVariable[T]):
             self._update_domain_(self._domain_source_.domain)
 
     def _update_domain_(self, domain):
-        if domain:
+        # (a single value given as the domain may be falsy - an object with __bool__ / __len__ -: it is still the domain)
+        if domain is not None:
             new_domain = None
             if isinstance(domain, HashedIterable):
                 self._domain_ = domain
